@@ -173,6 +173,9 @@ type c16BCase struct {
 	H2       int    `json:"configured_source_condition"` // gOffline gLagging gStopped gDead
 	Reconf   string `json:"stream_from_changed_to"`      // "" none, h1, c2
 	Progress bool   `json:"candidate_catches_up_later"`
+	// Late: the operator changes stream_from after the manager's first iteration (the host is already
+	// in the manager's registry) instead of before it
+	Late bool `json:"stream_from_changed_after_first_iteration,omitempty"`
 }
 
 func c16BRun(r *vt.Run, c c16BCase) {
@@ -227,7 +230,7 @@ func c16BRun(r *vt.Run, c c16BCase) {
 		case gDead:
 			h2.Crash(w)
 		}
-		if c.Reconf != "" {
+		if c.Reconf != "" && !c.Late {
 			w.ZK.Put(vns+"/cascade_nodes/c1", jsonStr(map[string]string{"stream_from": c.Reconf}))
 		}
 		moves := 0
@@ -269,6 +272,9 @@ func c16BRun(r *vt.Run, c c16BCase) {
 				}
 			}
 			w.Advance(5 * time.Second)
+			if c.Reconf != "" && c.Late && i == 0 {
+				w.ZK.Put(vns+"/cascade_nodes/c1", jsonStr(map[string]string{"stream_from": c.Reconf}))
+			}
 			if c.Progress && i >= 1 {
 				for _, x := range spec.AllHosts() {
 					w.Replicate(x)
@@ -280,6 +286,11 @@ func c16BRun(r *vt.Run, c c16BCase) {
 			}
 		}
 		r.Outcome(fmt.Sprintf("moves=%d source=%s", min(moves, 2), c1.Source))
+		// the configured source is healthy and has everything the replica has: after the iterations the
+		// replica streams from it (the configuration the operator wrote is the one that counts)
+		if c.Reconf != "" && (c.Relation == "behind" || c.Relation == "equal") && c1.Source != c.Reconf {
+			r.Violate("C16/3-streams-from-the-configured-source-when-it-is-healthy", fmt.Sprintf("stream_from of c1 is %s, which is healthy and contains c1's transactions, but after 4 iterations c1 replicates from %s; case %+v", c.Reconf, c1.Source, c), c)
+		}
 		if moves > 0 {
 			r.Nontrivial(fmt.Sprintf("%+v", c))
 		}
@@ -566,12 +577,17 @@ func checkC16(r *vt.Run) {
 						if !r.Mine(idx) {
 							continue
 						}
-						c := c16BCase{rel, run, h2, rc, prog}
+						c := c16BCase{Relation: rel, Running: run, H2: h2, Reconf: rc, Progress: prog}
 						r.Crumb(c16Case{B: &c})
 						if rel == "ahead" && run && h2 == gDead && rc == "" {
 							r.Sample(c16Case{B: &c})
 						}
 						c16BRunWrap(r, c)
+						if rc != "" {
+							c.Late = true
+							r.Crumb(c16Case{B: &c})
+							c16BRunWrap(r, c)
+						}
 					}
 				}
 			}
